@@ -8,7 +8,7 @@ import z3
 from . import smt
 from .smt import FForall, FAnd, FImp, FExists, QFact, f_and, f_imp, fresh, is_qf, zbool
 from . import vals as V
-from .vals import (OutOfReach, Arr, ExprArr, SpecArr, FunVal, Obj, INT, REAL, BOOL, is_sym, is_cint,
+from .vals import (OutOfReach, Arr, ExprArr, ArrView, SpecArr, FunVal, Obj, INT, REAL, BOOL, is_sym, is_cint,
                    is_creal, is_intlike, is_reallike, is_boollike, is_num, Z, ZR, ZI, simp, binop, compare,
                    truth, b_not, b_and, b_or, ite)
 from .interp import Module, load_module, State, Obligation, Contract, Ctx
@@ -153,7 +153,7 @@ class Exec(BufMixin):
             return a.term
         if isinstance(a, ExprArr):
             ids = [z3.Int('lam!%d' % k) for k in range(a.rank)]
-            return z3.Lambda(ids, Z(a.fn(tuple(ids))))
+            return z3.Lambda(ids, Z(self.elem_fn(st, a)(tuple(ids))))
         raise OutOfReach('array expected')
 
     def elem_fn(self, st, a):
@@ -164,6 +164,9 @@ class Exec(BufMixin):
         if isinstance(a, SpecArr):
             t = a.term
             return lambda idx: z3.Select(t, *[ZI(i) for i in idx])
+        if isinstance(a, ArrView):
+            t = st.heap[a.base.aid]
+            return lambda idx, a=a, t=t: z3.Select(t, *[ZI(i) for i in a.base_index(idx)])
         if isinstance(a, ExprArr):
             return a.fn
         raise OutOfReach('array expected')
@@ -210,16 +213,23 @@ class Exec(BufMixin):
             raise OutOfReach('subscript of %r' % (base,))
         if not isinstance(idx, tuple):
             idx = (idx,)
-        if len(idx) > base.rank:
+        nreal = sum(1 for i in idx if i is not None)
+        if nreal > base.rank:
             raise OutOfReach('too many indices')
-        idx = list(idx) + [slice(None)] * (base.rank - len(idx))
-        if all(not isinstance(i, slice) for i in idx):
+        idx = list(idx) + [slice(None)] * (base.rank - nreal)
+        if all(not isinstance(i, slice) and i is not None for i in idx):
             ii = [self.norm_index(st, fr, i, base.shape[k], node) for k, i in enumerate(idx)]
             return simp(self.elem_fn(st, base)(tuple(ii)))
-        # view
-        starts, axes, shape = [], [], []
-        for k, i in enumerate(idx):
+        # view: per source axis a fixed index or a slice; None inserts an axis of length 1
+        starts, shape, kinds = [], [], []
+        k = 0
+        for i in idx:
+            if i is None:
+                kinds.append('new')
+                shape.append(1)
+                continue
             n = base.shape[k]
+            k += 1
             if isinstance(i, slice):
                 if i.step is not None and i.step != 1:
                     raise OutOfReach('strided slice')
@@ -232,21 +242,40 @@ class Exec(BufMixin):
                 # numpy clips slices silently; we require them to be within bounds (stronger, no silent clipping)
                 self.safety(st, fr, 'slice_bounds', b_and(compare('GtE', lo, 0), compare('LtE', lo, hi), compare('LtE', hi, n)), node)
                 starts.append(lo)
-                axes.append(k)
+                kinds.append('s')
                 shape.append(binop('Sub', hi, lo))
             else:
                 starts.append(self.norm_index(st, fr, i, n, node))
+                kinds.append('i')
+        if 'new' not in kinds and isinstance(base, (Arr, ArrView)):
+            # live view of allocated storage
+            spec = [('i' if kd == 'i' else 's', v) for kd, v in zip(kinds, starts)]
+            if isinstance(base, ArrView):
+                it = iter(spec)
+                comp = []
+                for (bk, bv) in base.spec:
+                    if bk == 'i':
+                        comp.append((bk, bv))
+                    else:
+                        (vk, vv) = next(it)
+                        comp.append((vk, binop('Add', bv, vv)))
+                return ArrView(base.base, comp, shape)
+            return ArrView(base, spec, shape)
         ef = self.elem_fn(st, base)
-        is_slice = [isinstance(i, slice) for i in idx]
 
-        def fn(j, ef=ef, starts=starts, is_slice=is_slice):
+        def fn(j, ef=ef, starts=starts, kinds=kinds):
             full = []
+            si = iter(starts)
+            for kd, jv in zip(kinds, j) if False else []:
+                pass
             jj = iter(j)
-            for k in range(len(starts)):
-                if is_slice[k]:
-                    full.append(binop('Add', starts[k], next(jj)))
+            for kd in kinds:
+                if kd == 'new':
+                    next(jj)
+                elif kd == 's':
+                    full.append(binop('Add', next(si), next(jj)))
                 else:
-                    full.append(starts[k])
+                    full.append(next(si))
             return ef(tuple(full))
         return ExprArr(shape, fn, base.elem)
 
@@ -254,6 +283,33 @@ class Exec(BufMixin):
         r = self.buf_store(st, fr, base, idx, val, node)
         if r is not NotImplemented:
             return
+        if isinstance(base, ArrView):
+            if not isinstance(idx, tuple):
+                idx = (idx,)
+            idx = list(idx) + [slice(None)] * (base.rank - len(idx))
+            it = iter(zip(idx, base.shape))
+            comp = []
+            for (bk, bv) in base.spec:
+                if bk == 'i':
+                    comp.append(bv)
+                    continue
+                (i, n) = next(it)
+                if isinstance(i, slice):
+                    lo = 0 if i.start is None else i.start
+                    hi = n if i.stop is None else i.stop
+                    if is_cint(lo) and lo < 0:
+                        lo = binop('Add', n, lo)
+                    if is_cint(hi) and hi < 0:
+                        hi = binop('Add', n, hi)
+                    self.safety(st, fr, 'slice_bounds', b_and(compare('GtE', lo, 0), compare('LtE', lo, hi), compare('LtE', hi, n)), node)
+                    comp.append(slice(binop('Add', bv, lo), binop('Add', bv, hi)))
+                else:
+                    comp.append(binop('Add', bv, self.norm_index(st, fr, i, n, node)))
+            if self.is_arr(val) and isinstance(val, ArrView) and val.base is base.base:
+                # reading and writing the same storage: take a snapshot of the right-hand side first (numpy copies on overlap)
+                f0 = self.elem_fn(st, val)
+                val = ExprArr(val.shape, f0, val.elem)
+            return self.store(st, fr, base.base, tuple(comp), val, node)
         if isinstance(base, list):
             if is_cint(idx):
                 base[idx] = val
@@ -332,10 +388,33 @@ class Exec(BufMixin):
             return INT if is_intlike(x) or isinstance(x, bool) else REAL
         elem = INT if (et(a) == INT and et(b) == INT and not getattr(op, 'real_result', False)) else REAL
         if aa and ba:
-            if a.rank != b.rank:
-                raise OutOfReach('broadcast between ranks')
             fa, fb = self.elem_fn(st, a), self.elem_fn(st, b)
-            return ExprArr(a.shape, lambda j: op(fa(j), fb(j)), elem), list(zip(a.shape, b.shape))
+            sa, sb = list(a.shape), list(b.shape)
+            ra, rb = len(sa), len(sb)
+            r = max(ra, rb)
+            sa = [1] * (r - ra) + sa
+            sb = [1] * (r - rb) + sb
+            shape, pairs, ma, mb = [], [], [], []
+            for x, y in zip(sa, sb):
+                if is_cint(x) and x == 1 and not (is_cint(y) and y == 1):
+                    shape.append(y)
+                    ma.append(False)
+                    mb.append(True)
+                elif is_cint(y) and y == 1 and not (is_cint(x) and x == 1):
+                    shape.append(x)
+                    ma.append(True)
+                    mb.append(False)
+                else:
+                    shape.append(x)
+                    ma.append(True)
+                    mb.append(True)
+                    pairs.append((x, y))
+
+            def pick(j, m, n):
+                j = list(j)[r - n:]
+                m = m[r - n:]
+                return tuple(jv if mv else 0 for jv, mv in zip(j, m))
+            return ExprArr(shape, lambda j: op(fa(pick(j, ma, ra)), fb(pick(j, mb, rb))), elem), pairs
         if aa:
             fa = self.elem_fn(st, a)
             return ExprArr(a.shape, lambda j: op(fa(j), b), elem), []
